@@ -5,7 +5,7 @@ from vf.pyvc.lib import REG
 from contracts import markings as K
 
 LEVEL = 'exploration'
-M1 = 'marking-definition--613f2e26-407d-48c7-9eca-b8e91df99dc9'; M2 = 'marking-definition--34098fce-860f-48ae-8e50-ebd3cc5e41da'; LANG = 'en'
+M1 = 'marking-definition--613f2e26-407d-48c7-9eca-b8e91df99dc9'; M2 = 'marking-definition--34098FCE-860F-48AE-8E50-EBD3CC5E41DA'; LANG = 'en'          # (M2 is spelled with upper-case hexadecimal digits: a valid identifier, kept and compared as given)
 MARKS = [M1, M2, LANG]
 SELS = ['name', 'description', 'labels', 'labels.[0]', 'labels.[1]', 'created', 'created_by_ref', 'external_references', 'external_references.[0]', 'external_references.[0].source_name',
         'revoked']          # description is "" and revoked is False: selectors address properties, whatever (falsy) value they hold
@@ -172,6 +172,20 @@ def run(chk):
         except MarkingNotFoundError:
             cleared_ok = False
             if any(s2 == s for (s2, _) in v0): return ('clear#raises although marked', f'{ctx}: clear({s})', {})
+        # the kind flags: clear / set restricted to marking-ref markings or to language markings touch only that kind on s
+        isref = lambda m_: m_.startswith('marking-definition--')
+        for mr, lg in ((True, False), (False, True)):
+            try:
+                cf = view(markings.clear_markings(st, s, marking_ref=mr, lang=lg)); cfe = None
+                expf = frozenset((s2, m2) for (s2, m2) in v0 if not (s2 == s and ((mr and isref(m2)) or (lg and not isref(m2)))))
+                if cf != expf: return (f'clear#kind flags (marking_ref={mr}, lang={lg})', f'{ctx}: clear({s}, marking_ref={mr}, lang={lg}) gives {sorted(cf ^ expf)[:3]} wrong', {})
+            except MarkingNotFoundError: cf = None; cfe = 'MarkingNotFoundError'
+            for m in [x_ for x_ in (M1, LANG) if x_ in MARKS_K]:
+                try: sf = view(markings.set_markings(st, m, s, marking_ref=mr, lang=lg)); sfe = None
+                except MarkingNotFoundError: sf = None; sfe = 'MarkingNotFoundError'
+                try: caf = view(markings.add_markings(markings.clear_markings(st, s, marking_ref=mr, lang=lg), m, s)); cafe = None
+                except MarkingNotFoundError: caf = None; cafe = 'MarkingNotFoundError'
+                if (sf, sfe) != (caf, cafe): return (f'set#equals clear then add (marking_ref={mr}, lang={lg})', f'{ctx}: set({m[-4:]}, {s}, marking_ref={mr}, lang={lg}) = {sf and sorted(sf)[:3]}/{sfe}; clear;add = {caf and sorted(caf)[:3]}/{cafe}', {})
         for m in MARKS_K[::2]:
             # setting equals clearing then adding -- as program equivalence, including the exceptional outcome
             try: sset = view(markings.set_markings(st, m, s)); sexc = None
